@@ -910,6 +910,16 @@ def dict_method(interp, st, d, name, args, kwargs, node):
         _raise("KeyError", "pop of missing key", node)
     if name == "copy":
         return VDict([[k, v] for k, v in d.entries])
+    if name == "setdefault":
+        for k, v in d.entries:
+            if interp.truth(st, interp.equals(st, k, args[0])):
+                return v
+        val = args[1] if len(args) > 1 else None
+        interp.dict_set(st, d, args[0], val)
+        return val
+    if name == "clear":
+        del d.entries[:]
+        return None
     if name == "update":
         other = interp.resolve(st, args[0])
         for k, v in other.entries:
